@@ -187,6 +187,9 @@ def rule_class(ctx, rep, names, idx):
             r.finding(inst + "=>" + str(got), where, "classified as %s, but its lexer attributes make it %s" % (got, sorted(str(x) for x in allowed)))
 
 
+STATE_PARAMS = {}      # body id -> parameters that are the `&mut state` of an Iterator::scan (the position of the previous token)
+
+
 def _carried(b, o):
     """is the operand state carried from one token to the next: a captured variable of a closure, or a local that is assigned more than
     once (initialised before the loop, updated in it)?  `tok.span.start - tok.col` subtracts two values of the current token."""
@@ -196,6 +199,8 @@ def _carried(b, o):
     rt = b.root(p)
     if b.f["dk"] == "Closure" and rt[0] == 1:
         return True
+    if rt[0] in STATE_PARAMS.get(norm(b.id), ()):
+        return True         # read through the state that scan() carries from one item to the next
     return len(b.defs.get(rt[0], [])) > 1 and not rt[1]
 
 
@@ -236,6 +241,7 @@ CONVERT_STEP = [None]      # id of the filter_map closure whose every output goe
 def reencoded_in_tokenize(ctx):
     """LspProject::tokenize builds its Ok list as  filter_map(<closure building LspTokenType and converting>)
     .map(<closure that rebuilds each SemanticToken with subtraction-dependent deltas>).collect()  -- returns (ok, detail)"""
+    STATE_PARAMS.clear()
     tb = ctx.prog.get(LP + "LspProject::tokenize")
     if not tb:
         return False, "LspProject::tokenize not found"
@@ -275,6 +281,45 @@ def reencoded_in_tokenize(ctx):
                 if cp is not None and b.root(cp)[0] == m.dest[0]:
                     CONVERT_STEP[0] = norm(fc.id)
                     return True, "filter_map(convert) -> map(re-encode with differences) -> collect"
+    # the same with the carried state made explicit: filter_map(convert).scan(first, |prev, tok| Some(re-encode(prev, tok))).collect()
+    sc = [c for c in b.calls() if (c.callee or "").endswith("Iterator::scan")]
+    for f in fm:
+        fc = closure_of(f, 1)
+        if not fc or not any(s[0] == "=" and s[2][0] == "agg" and s[2][1].get("adt") == LP + "LspTokenType" for _, _, s in fc.all_stmts()):
+            continue
+        for sc_ in sc:
+            sp0 = op_place(sc_.args[0]) if sc_.args else None
+            if sp0 is None or b.root(sp0)[0] != f.dest[0] or len(sc_.args) < 3:
+                continue
+            cl = closure_of(sc_, 2)
+            if cl is None:
+                continue
+            # the body that re-encodes: the closure itself (state = its parameter 2) or the function it hands the state to
+            cands = [(cl, 2)]
+            for c2 in cl.calls():
+                for k_, a in enumerate(c2.args):
+                    ap = op_place(a)
+                    if ap is not None and cl.root(ap)[0] == 2 and (c2.callee or "").startswith("ironplcc::"):
+                        for hb in ctx.prog.get(c2.callee):
+                            cands.append((hb, k_ + 1))
+            for eb, sp in cands:
+                STATE_PARAMS[norm(eb.id)] = {sp}
+                good = False
+                for _, _, s in eb.all_stmts():
+                    if s[0] == "=" and s[2][0] == "agg" and s[2][1].get("adt") == "lsp_types::semantic_tokens::SemanticToken":
+                        ops = dict(zip(s[2][1]["fields"], s[2][2]))
+                        if depends_on_sub(eb, ops["delta_line"], carried=True) and depends_on_sub(eb, ops["delta_start"], carried=True):
+                            good = True
+                # the state is replaced by the position of the current token
+                updated = any(s[0] == "=" and s[1][0] == sp and "*" in s[1][1] for _, _, s in eb.all_stmts())
+                if not (good and updated):
+                    STATE_PARAMS.pop(norm(eb.id), None)
+                    continue
+                for c in co:
+                    cp = op_place(c.args[0])
+                    if cp is not None and b.root(cp)[0] == sc_.dest[0]:
+                        CONVERT_STEP[0] = norm(fc.id)
+                        return True, "filter_map(convert) -> scan(previous position, re-encode with differences and update) -> collect"
     CONVERT_STEP[0] = None
     # the same written as a loop: the returned vector is filled by push() only, and every pushed token is built right there with
     # subtraction-dependent deltas (whatever was converted before is an intermediate value of the same function)
